@@ -145,6 +145,7 @@ def run(ctx):
     ctx.rule("R05.7", "a batch is skipped before the busy decision only if it contains no path and no empty synthetic event")
     ctx.rule("R05.8", "job retention: between actions the action worker forgets a job only when Job::is_dead() holds for it (or on a graceful quit, "
                       "which drains the map to stop every job): the busy decision of the next action finds the same job and its running process")
+    ctx.also("R05.8", "get_or_create_job creates a job only when the Id has none in the handler's snapshot, which Handler only reads")
     ctx.rule("R05.6", "single job: the action handler always uses one Id created outside the handler; create_job is not called in the CLI")
     try:
         cands = [f for f in facts.fns_matching(CFGP) if f.thir and [m for m in thir.find(thir.root(f), "match") if m["sty"].endswith("OnBusyUpdate")]]
